@@ -248,6 +248,11 @@ def rand_case(rng, kind, max_ops):
         if op[0] == 'addvar':
             rows += 1
         case['ops'].append(op)
+    # a final reindex() onto another span: kept / dropped / new / reordered periods (the linker has no reindex)
+    if kind != 'linker' and rng.random() < 0.5:
+        top = max(span + [0])
+        case['rx'] = rng.choice([span[1:] + [top + 1], [top + 2] + span, list(reversed(span)), span[:1], [], span + [top + 1, top + 2],
+                                 [x for x in span if x % 2 == 0] + [top + 5]])
     return case
 
 
@@ -394,6 +399,29 @@ def _slice_count(span, a, b, st):
     return len(range(n)[sl:el:step])
 
 
+def _reindex_failures(case, obs, final, bad):
+    """reindex(): the result is again a container of the same variables, one cell per NEW period, dtypes kept; a period that was there
+    keeps its cell (labels looked up by first occurrence), the original is untouched (checked by the caller through `final`)."""
+    rx, st = case.get('rx'), obs.get('reindex')
+    if rx is None or st is None or 'copy' in final.get('adict', []):
+        return                        # (an ad hoc attribute called `copy` hides the method reindex() relies on)
+    if not isinstance(st, dict):
+        bad('reindex|raises', 'reindex(%s) raised %s' % (rx, st))
+        return
+    if st['index'] != final['index'] or st['names'] != final['names']:
+        bad('reindex|variables-changed', 'reindex(%s): variables %s -> %s' % (rx, final['index'], st['index']))
+        return
+    span = case['span']
+    for (name, dt, shape, cells), (name0, dt0, shape0, cells0) in zip(st['vars'], final['vars']):
+        if dt != dt0 or shape != [len(rx)]:
+            bad('reindex|series-shape-dtype', 'reindex(%s): series %s has dtype %s shape %s (was %s)' % (rx, name, dt, shape, dt0))
+            continue
+        for i, lab in enumerate(rx):
+            if lab in span and cells[i] != cells0[span.index(lab)]:
+                bad('reindex|cell-not-carried-over', 'reindex(%s): %s at period %s is %s, was %s' % (rx, name, lab, cells[i], cells0[span.index(lab)]))
+                break
+
+
 def oracle(case, obs):
     fails = []
 
@@ -536,6 +564,7 @@ def oracle(case, obs):
             if (op[0] == 'setattr' and op[1] in prev['index']) or op[0] == 'addvar' or (op[0] == 'setitem' and op[1][0] == 'n' and op[1][1] in prev['index']):
                 bad('strict|update-blocked', 'op %d %s of an existing name / add_variable raised AttributeError under strict' % (i, op[0]))
         prev = st
+    _reindex_failures(case, obs, prev, bad)
     return fails
 
 
